@@ -36,6 +36,16 @@ def query_handlers(run):
     return {"known": bool(known), "prepare": bool(pr), "parent": bool(pa), "child": ch, "preinit": bool(pre)}
 
 
+def query_unprotected(run):
+    """names of the static-storage objects the classification leaves unprotected (for the report of a broken obligation)"""
+    qf = os.path.join(run.scratch, "props", "Query_globals.v")
+    os.makedirs(os.path.dirname(qf), exist_ok=True)
+    open(qf, "w").write("From Coq Require Import String List.\nFrom Snoopy Require Import Conc.LockSkel.\nFrom Gen Require Import Gen_Conc Gen_Globals.\n"
+                        "Eval vm_compute in (unprotected tsrm_fns globals (reachable_fns fn_refs data_refs), lock_objects globals).\n")
+    p = sh(["timeout", "120", "coqc", "-q", "-Q", THEORIES, "Snoopy", "-Q", run.gen, "Gen", qf], check=False)
+    return re.findall(r'"([^"]+)"%string', p.stdout) or re.findall(r'"([^"]+)"', p.stdout)
+
+
 def setup_conc(run):
     """snapshot -> production library -> translator -> handlers; shared by C09 and C10"""
     run.snapshot()
@@ -355,8 +365,10 @@ def check(run):
             raise
         run.notes.append("system-level stage stopped on this tree: %s" % str(e)[:500])
     ops, K, meta, P, plans, nrun, tres, nstress, tsan_seen = (stats[k] for k in ("ops", "K", "meta", "P", "plans", "nrun", "tres", "nstress", "tsan_seen"))
+    if not ok:
+        run.notes.append("static-storage objects not classified as protected / lock objects: %s" % query_unprotected(run))
     if not ok and not new_violations(run):
-        run.violation("proof:%s" % failed, "proof", "proof obligation no longer checks: %s\n%s" % (failed, log[-1500:]), {"theorem": failed, "coq_log": log[-3000:]})
+        run.violation("proof:%s" % failed, "proof", "proof obligation no longer checks: %s\n%s\nobjects: %s" % (failed, log[-1500:], run.notes[-1]), {"theorem": failed, "coq_log": log[-3000:], "objects": run.notes[-1]})
     chk = coqchk_props(run, "Properties_C09") if (ok and not quick) else None
     run.coverage.update({
         "evaluations": len(dcases) + nrun + len(tres) + nstress + 3,
